@@ -81,4 +81,13 @@ theorem model_add_is_group_law_unconditional (a q : VrfCurve.Point)
     affY (VrfCurve.add a q) = addY (VrfCurve.dConst : Fp) (affX a) (affY a) (affX q) (affY q) :=
   model_add_affine a q ha hq hD1 hD2
 
+/-- The model's `sub` (ref10 `GeSub`) computes `a + (−q)` of that group (part of R2). -/
+theorem model_sub_is_group_sub (a q : VrfCurve.Point) (ha : WellFormed a) (hq : WellFormed q)
+    (hD1 : 1 + (VrfCurve.dConst : Fp) * affX a * (-affX q) * affY a * affY q ≠ 0)
+    (hD2 : 1 - (VrfCurve.dConst : Fp) * affX a * (-affX q) * affY a * affY q ≠ 0) :
+    WellFormed (VrfCurve.sub a q) ∧
+    affX (VrfCurve.sub a q) = addX (VrfCurve.dConst : Fp) (affX a) (affY a) (-affX q) (affY q) ∧
+    affY (VrfCurve.sub a q) = addY (VrfCurve.dConst : Fp) (affX a) (affY a) (-affX q) (affY q) :=
+  model_sub_affine a q ha hq hD1 hD2
+
 end Rangers.Props.C16Prime
